@@ -203,6 +203,65 @@ func (ix *Index) Family(typeName, prefix string) ([]*Const, error) {
 	return out, nil
 }
 
+// UnionOf reports that the constant c is declared as a combination `A | B | …`
+// of two or more other constants (a named mask built from flags, not a flag of
+// its own) and returns their names.
+func (ix *Index) UnionOf(c *types.Const) ([]string, bool) {
+	d := ix.constDecl[c]
+	if d == nil {
+		return nil, false
+	}
+	var expr ast.Expr
+	for _, sp := range d.Specs {
+		vs, ok := sp.(*ast.ValueSpec)
+		if !ok {
+			continue
+		}
+		for i, n := range vs.Names {
+			if ix.Pk.TypesInfo.Defs[n] == types.Object(c) && i < len(vs.Values) {
+				expr = vs.Values[i]
+			}
+		}
+	}
+	if expr == nil {
+		return nil, false
+	}
+	var names []string
+	ok := true
+	var walk func(e ast.Expr)
+	walk = func(e ast.Expr) {
+		e = ast.Unparen(e)
+		switch e := e.(type) {
+		case *ast.BinaryExpr:
+			if e.Op != token.OR {
+				ok = false
+				return
+			}
+			walk(e.X)
+			walk(e.Y)
+		case *ast.Ident:
+			if k, isConst := ix.Pk.TypesInfo.Uses[e].(*types.Const); isConst && k != c {
+				names = append(names, k.Name())
+			} else {
+				ok = false
+			}
+		case *ast.SelectorExpr:
+			if k, isConst := ix.Pk.TypesInfo.Uses[e.Sel].(*types.Const); isConst {
+				names = append(names, k.Name())
+			} else {
+				ok = false
+			}
+		default:
+			ok = false
+		}
+	}
+	walk(expr)
+	if !ok || len(names) < 2 {
+		return nil, false
+	}
+	return names, true
+}
+
 // SingleBit reports whether v is a power of two (exactly one bit set).
 func SingleBit(v constant.Value) bool {
 	if constant.Sign(v) <= 0 {
